@@ -16,8 +16,8 @@ PROPS = {
     "C02": dict(level="exploration", sel=lambda c: True, cases=(25000, 120000), max_len=(60, 120)),
     "C03": dict(level="exploration", sel=lambda c: c.tracked_elems, cases=(25000, 120000), max_len=(60, 120)),
     "C04": dict(level="exploration", sel=lambda c: c.tracked_alloc, cases=(20000, 100000), max_len=(60, 120), modes=("", "small")),
-    "C05": dict(level="fault_enumeration", sel=lambda c: True, cases=(1500, 12000), max_len=(25, 25), fault=True),
-    "C06": dict(level="fault_enumeration", sel=lambda c: True, cases=(1200, 10000), max_len=(25, 25), fault=True),
+    "C05": dict(level="fault_enumeration", sel=lambda c: True, cases=(15000, 120000), max_len=(25, 25), fault=True),
+    "C06": dict(level="fault_enumeration", sel=lambda c: True, cases=(12000, 100000), max_len=(25, 25), fault=True),
     "C07": dict(level="exploration", sel=lambda c: c.tracked_alloc, cases=(25000, 120000), max_len=(60, 120)),
     "C09": dict(level="exploration", sel=lambda c: True, cases=(25000, 120000), max_len=(60, 120)),
     "C10": dict(level="exploration", sel=lambda c: True, cases=(25000, 120000), max_len=(60, 120)),
@@ -162,6 +162,39 @@ def run_check(prop, tier, verdict, extra_args=None):
         rc, out, err = C.run(cmd, timeout=7200)
         return rc, out, err
 
+    # regression corpus first: replays of fixed defects and of listed findings
+    nviol = 0
+    regress_run = 0
+    rdir = os.path.join(C.VERIF, "replays", "regress")
+    have_cfgs = set(c.name for c in configs.grid(tier))
+    for name in sorted(os.listdir(rdir)) if os.path.isdir(rdir) else []:
+        if not name.startswith(prop + "-") or not name.endswith(".replay"):
+            continue
+        path = os.path.join(rdir, name)
+        with open(path) as f:
+            txt = f.read()
+        cfgname = [l.split()[1] for l in txt.splitlines() if l.startswith("cfg ")]
+        if not cfgname or cfgname[0] not in have_cfgs:
+            continue
+        regress_run += 1
+        bad, last = replay_fails(exe, path, prop)
+        if bad:
+            verdict.violation(path, "regression replay %s fails again: %s" % (name, last.strip().splitlines()[-1] if last.strip() else ""))
+            nviol += 1
+    for k in C.findings_for(prop):
+        rp = k.get("replay")
+        if not rp:
+            continue
+        path = os.path.join(C.VERIF, rp)
+        if not os.path.exists(path):
+            continue
+        regress_run += 1
+        bad, last = replay_fails(exe, path, prop)
+        if bad:
+            verdict.known_finding(k["id"], k["what"])
+        else:
+            verdict.notes.append("listed finding %s no longer reproduces from its replay" % k["id"])
+
     results = C.parallel(jobs, one)
     # merge
     fps = set()
@@ -195,7 +228,6 @@ def run_check(prop, tier, verdict, extra_args=None):
         if st.get("failure"):
             failures.append((j, st["failure"]))
 
-    nviol = 0
     for j, fl in failures:
         dest = os.path.join(C.REPLAYS_TMP, "%s-%s-%d.replay" % (prop, j["tag"], seed))
         shutil.copyfile(j["replay"], dest)
@@ -249,6 +281,7 @@ def run_check(prop, tier, verdict, extra_args=None):
         workers=len(jobs),
         class_histogram=classes,
         workers_died=len(incomplete),
+        regression_replays_run=regress_run,
     )
     if spec.get("fault"):
         cov.update(fault_points_enumerated=int(tot["fault_points"]), faults_injected=int(tot["faults_injected"]),
